@@ -4,7 +4,7 @@ import Rg.Proofs.XTypes
 /-!
 # Lemmas about the model of `typematch`
 
-Part 1: with no fields left the sequence loop accepts exactly the all-`$*_` remainders (`matchSubs_nil`).
+Part 1: with no fields left the sequence loop accepts exactly the all-`$*_` remainders (`matchSubsAsIs_nil`).
 Part 2: closed patterns (no named variable, no `$*_`) on tame types: the matcher leaves the binding
 tables alone and computes the denotation (`closed_run`).
 -/
@@ -14,13 +14,13 @@ namespace TypeMatch
 
 /-! ## Part 1 -/
 
-theorem matchSubs_nil (fx : Bool) (st : MState) : ∀ subs : List Pat, matchSubs fx st subs [] = (subs.all Pat.isSeq, st)
-  | [] => by simp [matchSubs]
-  | [.varSeq] => by simp [matchSubs, Pat.isSeq]
-  | .varSeq :: next :: rest => by simp [matchSubs, scanSeq, Pat.isSeq]
+theorem matchSubsAsIs_nil (fx : Bool) (st : MState) : ∀ subs : List Pat, matchSubsAsIs fx st subs [] = (subs.all Pat.isSeq, st)
+  | [] => by simp [matchSubsAsIs]
+  | [.varSeq] => by simp [matchSubsAsIs, Pat.isSeq]
+  | .varSeq :: next :: rest => by simp [matchSubsAsIs, scanSeq, Pat.isSeq]
   | .builtin _ :: _ | .ptr _ :: _ | .var _ :: _ | .slice _ :: _ | .arrayVar .. :: _ | .arrayLit .. :: _
   | .map .. :: _ | .chan .. :: _ | .funcNoSeq .. :: _ | .func .. :: _ | .structNoSeq _ :: _ | .struct _ :: _
-  | .anyIface :: _ | .named .. :: _ => by simp [matchSubs, Pat.isSeq]
+  | .anyIface :: _ | .named .. :: _ => by simp [matchSubsAsIs, Pat.isSeq]
 
 /-! ## Part 2 — closed patterns -/
 
@@ -146,21 +146,21 @@ mutual
 /-- A closed pattern against a tame type: the binding tables come back unchanged, and the assignments the
 spec finds are `[st]` or none according to the matcher's answer. -/
 theorem closed_run : ∀ (p : Pat) (st : MState) (t : Ty), closedIn bs p = true → tame fx I bs t = true →
-    (matchIdentical fx st p t).2 = st ∧
-    specM I Rules.strict st p t = if (matchIdentical fx st p t).1 then [st] else []
+    (matchIdenticalAsIs fx st p t).2 = st ∧
+    specM I Rules.strict st p t = if (matchIdenticalAsIs fx st p t).1 then [st] else []
   | .builtin b, st, t, hc, ht => by
     have hid := idAt_apply (tame_idAt ht) (by simpa [closedIn] using hc)
-    unfold matchIdentical specM
+    unfold matchIdenticalAsIs specM
     cases t <;> simp [hid]
   | .var n, st, t, hc, ht => by
     have : n = "_" := by simpa [closedIn] using hc
     subst this
-    unfold matchIdentical specM
+    unfold matchIdenticalAsIs specM
     cases t <;> simp
   | .varSeq, st, t, hc, ht => by simp [closedIn] at hc
   | .ptr e, st, t, hc, ht => by
     have hu := tame_notAlias ht
-    unfold matchIdentical specM
+    unfold matchIdenticalAsIs specM
     rw [hu]
     cases t <;> simp
     rename_i a
@@ -168,7 +168,7 @@ theorem closed_run : ∀ (p : Pat) (st : MState) (t : Ty), closedIn bs p = true 
     exact closed_run e st a hc ht.2
   | .slice e, st, t, hc, ht => by
     have hu := tame_notAlias ht
-    unfold matchIdentical specM
+    unfold matchIdenticalAsIs specM
     rw [hu]
     cases t <;> simp
     rename_i a
@@ -178,7 +178,7 @@ theorem closed_run : ∀ (p : Pat) (st : MState) (t : Ty), closedIn bs p = true 
     have hu := tame_notAlias ht
     simp only [closedIn, Bool.and_eq_true, beq_iff_eq] at hc
     obtain ⟨rfl, hc⟩ := hc
-    unfold matchIdentical specM
+    unfold matchIdenticalAsIs specM
     rw [hu]
     cases t <;> simp
     rename_i n a
@@ -187,7 +187,7 @@ theorem closed_run : ∀ (p : Pat) (st : MState) (t : Ty), closedIn bs p = true 
   | .arrayLit len e, st, t, hc, ht => by
     have hu := tame_notAlias ht
     simp only [closedIn] at hc
-    unfold matchIdentical specM
+    unfold matchIdenticalAsIs specM
     rw [hu]
     cases t <;> simp
     rename_i n a
@@ -199,22 +199,22 @@ theorem closed_run : ∀ (p : Pat) (st : MState) (t : Ty), closedIn bs p = true 
   | .map k v, st, t, hc, ht => by
     have hu := tame_notAlias ht
     simp only [closedIn, Bool.and_eq_true] at hc
-    unfold matchIdentical specM
+    unfold matchIdenticalAsIs specM
     rw [hu]
     cases t <;> simp
     rename_i tk tv
     simp only [tame, Bool.and_eq_true] at ht
     have ihk := closed_run k st tk hc.1 ht.1.2
     have ihv := closed_run v st tv hc.2 ht.2
-    have ek : matchIdentical fx st k tk = ((matchIdentical fx st k tk).1, st) := Prod.ext rfl ihk.1
+    have ek : matchIdenticalAsIs fx st k tk = ((matchIdenticalAsIs fx st k tk).1, st) := Prod.ext rfl ihk.1
     rw [ihk.2]
-    generalize (matchIdentical fx st k tk).1 = bk at ek
+    generalize (matchIdenticalAsIs fx st k tk).1 = bk at ek
     simp only [ek]
     cases bk <;> simp [ihv]
   | .chan dir e, st, t, hc, ht => by
     have hu := tame_notAlias ht
     simp only [closedIn] at hc
-    unfold matchIdentical specM
+    unfold matchIdenticalAsIs specM
     rw [hu]
     cases t <;> simp
     rename_i d a
@@ -225,7 +225,7 @@ theorem closed_run : ∀ (p : Pat) (st : MState) (t : Ty), closedIn bs p = true 
     · simp [hl]
   | .named pkgPath typeName, st, t, hc, ht => by
     have hu := tame_notAlias ht
-    unfold matchIdentical specM
+    unfold matchIdenticalAsIs specM
     rw [hu]
     cases t <;> simp
     rename_i u o p n x l ts
@@ -239,7 +239,7 @@ theorem closed_run : ∀ (p : Pat) (st : MState) (t : Ty), closedIn bs p = true 
   | .funcNoSeq pps prs, st, t, hc, ht => by
     have hu := tame_notAlias ht
     simp only [closedIn, Bool.and_eq_true] at hc
-    unfold matchIdentical specM
+    unfold matchIdenticalAsIs specM
     rw [hu]
     cases t <;> simp
     rename_i v tps params results
@@ -247,11 +247,11 @@ theorem closed_run : ∀ (p : Pat) (st : MState) (t : Ty), closedIn bs p = true 
     obtain ⟨⟨⟨⟨_, rfl⟩, rfl⟩, hp⟩, hr⟩ := ht
     have ihp := closed_runAll pps st (tupleElems params) hc.1 (tameList_tupleElems hp)
     have ihr := closed_runAll prs st (tupleElems results) hc.2 (tameList_tupleElems hr)
-    have ep : matchAll fx st pps (tupleElems params) = ((matchAll fx st pps (tupleElems params)).1, st) :=
+    have ep : matchAllAsIs fx st pps (tupleElems params) = ((matchAllAsIs fx st pps (tupleElems params)).1, st) :=
       Prod.ext rfl ihp.1
     simp only [tupleElems_eq]
     rw [ihp.2]
-    generalize (matchAll fx st pps (tupleElems params)).1 = bp at ep
+    generalize (matchAllAsIs fx st pps (tupleElems params)).1 = bp at ep
     simp only [ep]
     by_cases h1 : pps.length = (tupleElems params).length
     · by_cases h2 : prs.length = (tupleElems results).length
@@ -264,7 +264,7 @@ theorem closed_run : ∀ (p : Pat) (st : MState) (t : Ty), closedIn bs p = true 
   | .structNoSeq subs, st, t, hc, ht => by
     have hu := tame_notAlias ht
     simp only [closedIn] at hc
-    unfold matchIdentical specM
+    unfold matchIdenticalAsIs specM
     rw [hu]
     cases t <;> simp
     rename_i fs
@@ -278,30 +278,30 @@ theorem closed_run : ∀ (p : Pat) (st : MState) (t : Ty), closedIn bs p = true 
   | .struct _, st, t, hc, ht => by simp [closedIn] at hc
   | .anyIface, st, t, hc, ht => by
     have hu := tame_notAlias ht
-    unfold matchIdentical specM
+    unfold matchIdenticalAsIs specM
     rw [hu]
     cases t <;> simp
 theorem closed_runAll : ∀ (ps : List Pat) (st : MState) (ts : List Ty), closedInList bs ps = true →
     tameList fx I bs ts = true →
-    (matchAll fx st ps ts).2 = st ∧
+    (matchAllAsIs fx st ps ts).2 = st ∧
     specSeq I Rules.strict st ps ts =
-      if ps.length = ts.length ∧ (matchAll fx st ps ts).1 = true then [st] else []
-  | [], st, [], _, _ => by simp [matchAll, specSeq]
-  | [], st, _ :: _, _, _ => by simp [matchAll, specSeq]
+      if ps.length = ts.length ∧ (matchAllAsIs fx st ps ts).1 = true then [st] else []
+  | [], st, [], _, _ => by simp [matchAllAsIs, specSeq]
+  | [], st, _ :: _, _, _ => by simp [matchAllAsIs, specSeq]
   | p :: ps, st, [], hc, _ => by
-    cases p <;> simp [matchAll, specSeq, closedInList, closedIn] at hc ⊢
+    cases p <;> simp [matchAllAsIs, specSeq, closedInList, closedIn] at hc ⊢
   | p :: ps, st, t :: ts, hc, ht => by
     simp only [closedInList, Bool.and_eq_true] at hc
     simp only [tameList, Bool.and_eq_true] at ht
     have ih1 := closed_run p st t hc.1 ht.1
     have ih2 := closed_runAll ps st ts hc.2 ht.2
     have hns : p ≠ Pat.varSeq := by rintro rfl; simp [closedIn] at hc
-    unfold matchAll specSeq
+    unfold matchAllAsIs specSeq
     cases p <;> first | (exact absurd rfl hns) | skip
     all_goals
-      have e1 := Prod.ext (x := matchIdentical fx st _ t) (y := ((matchIdentical fx st _ t).1, st)) rfl ih1.1
+      have e1 := Prod.ext (x := matchIdenticalAsIs fx st _ t) (y := ((matchIdenticalAsIs fx st _ t).1, st)) rfl ih1.1
       simp only [ih1.2]
-      generalize (matchIdentical fx st _ t).1 = b1 at e1
+      generalize (matchIdenticalAsIs fx st _ t).1 = b1 at e1
       simp only [e1]
       cases b1 <;> simp [ih2]
 end
